@@ -17,7 +17,7 @@ import re
 from collections import Counter
 from fractions import Fraction as F
 
-from harness.core import gn, gnat, gbool, glist, gopt, gpair, gq, CoqError
+from harness.core import gn, gnat, gbool, gopt, gpair, gq, CoqError
 
 META = {
     "level": "proof",
@@ -43,6 +43,16 @@ META = {
             "duration bounds read by the start event). Open findings: C26-span-condition-several-fluents, "
             "C26-explicit-epsilon-open-interval.",
 }
+
+
+
+def glist(xs):
+    """nested cons: Coq elaborates the [a; b; ...] notation several times more slowly"""
+    out = "nil"
+    for x in reversed(xs):
+        out = "(cons %s %s)" % (x, out)
+    return out
+
 
 IMPORTS = ["UPV.Model.Stn", "UPV.Planning.StnPlan", "UPV.Corr.Corr_C26"]
 IMPORTS_TT = ["UPV.Core.Expr", "UPV.Core.Eval", "UPV.Core.Interp", "UPV.Planning.Problem", "UPV.Planning.Sem",
@@ -479,6 +489,7 @@ def run(ctx):
     stats["t_coq_forward"] = round(time.time() - t0, 1)
     t0 = time.time()
     judged = []
+    shown = 0
     for o, code in zip(obs, codes):
         p, steps = o.problem, o.steps
         shape = plan_shape_tags(p, steps)
@@ -502,7 +513,9 @@ def run(ctx):
                     tags.append("impl-differs-from-model")
                 ctx.fail("oracle", "forward conversion: %s" % "; ".join(viol[:3]), tags, payload, True)
         elif code & 2:
-            payload["model"] = ctx.coq_show("show c", imports=IMPORTS, preamble="Definition c := %s.\n" % o.case())
+            shown += 1
+            if shown <= 3:         # one coqc run each: only for the first few
+                payload["model"] = ctx.coq_show("show c", imports=IMPORTS, preamble="Definition c := %s.\n" % o.case())
             ctx.fail("corr", "implementation differs from the model of _convert_to_stn / STNPlan (corr:C26:convert_to_stn/"
                              "plan_constraints/to_tt/extract_epsilon)", ["c26", "model-drift"] + shape, payload, False)
         if code & 16:
